@@ -120,8 +120,10 @@ class Soap12(Soap11):
             subelts[0] = code
 
         if isinstance(inst.detail, dict):
-            _append(subelts, E('{%s}Detail' % self.ns_soap_env,
-                                               root_dict_to_etree(inst.detail)))
+            # root_dict_to_etree needs a dict with exactly one key: use the
+            # Detail element itself as the root, like the soap 1.1 code does
+            _append(subelts, root_dict_to_etree(
+                           {'{%s}Detail' % self.ns_soap_env: inst.detail}))
 
         elif inst.detail is None:
             pass
